@@ -172,7 +172,7 @@ func gen(t *rapid.T) Case {
 	}
 	s := srvs[0]
 	c.Defer = rapid.Bool().Draw(t, "defer")
-	op := opgen.Generate(t, s.Schema, opgen.Options{MaxFields: 10, MaxDepth: 4, Defer: c.Defer})
+	op := opgen.Generate(t, s.Schema, opgen.Options{MaxFields: 10, MaxDepth: 4, Defer: c.Defer, Resolver: s.U.IsResolver})
 	c.Query, c.OpName, c.Variables = op.Query, op.OpName, op.Variables
 	c.PlanSeed = rapid.Uint64Range(1, 1<<32).Draw(t, "planseed")
 	if _, f := kit.Prepare(s, c.Case); f != nil {
